@@ -1703,6 +1703,7 @@ func (w *envelopingWriter) maybeInit() {
 	// synthesize envelope
 	if limit := int(w.rw.op.methodConf.maxMsgBufferBytes); w.rw.contentLen > limit {
 		w.err = bufferLimitError(int64(limit))
+		w.rw.reportError(w.err)
 		return
 	}
 	var env envelope
